@@ -6,10 +6,12 @@ C15.lean proves split-invariance of area / moments / winding for straight pieces
 `(n − prev)/(1 − prev)`, exactly as `BezierCurve.split` / pynurbs knot insertion does) produces pieces that are
 reparametrisations of the ORIGINAL segment over the consecutive parameter intervals [0,n₁], [n₁,n₂], …, [n_k,1]:
 `piece_j(u) = seg(n_j + u·(n_{j+1} − n_j))` for every rational u — all degrees, all node lists avoiding 1.
-Hence no point of the curve is moved, consecutive pieces meet exactly at `seg(n_j)`, and the pieces keep the degree.
+Hence no point of the curve is moved, consecutive pieces meet exactly at `seg(n_j)`, and the pieces keep the degree;
+`splitMany_integral_all`: the pieces together have exactly the boundary integrals (area, all moments) of the segment.
 -/
 import ShapeVerif.Props.C15
 import ShapeVerif.Props.C18b
+import ShapeVerif.Proofs.SplitIntGen
 
 namespace ShapeVerif.C15
 open ShapeVerif
@@ -78,6 +80,31 @@ theorem retraces_ends (orig piece : Seg) (lo hi : Rat) (h : Retraces orig piece 
   constructor
   · rw [h 0]; congr 1; ring
   · rw [h 1]; congr 1; ring
+
+/-! ### … and no boundary integral changes: area and every moment of a curved piece are those of its pieces (every degree, all exponents) -/
+
+/-- one cut: ∫ x^a y^b dy over the two halves adds up to the integral over the piece — any degree, any cut parameter, all exponents
+(Proofs/SplitIntGen.lean: the halves are the piece composed with t ↦ t₀t and t ↦ t₀ + (1−t₀)t; fundamental theorem on ℚ[X]) -/
+theorem split_preserves_integral_all (s : Seg) (hs : 2 ≤ s.length) (t0 : Rat) (a b : Nat) :
+    exactVertical (splitAt s t0).1 a b + exactVertical (splitAt s t0).2 a b = exactVertical s a b :=
+  exactVertical_split s hs t0 a b
+
+/-- `segment.split(nodes)`: the pieces together have the boundary integrals of the segment, for every list of parameters -/
+theorem splitMany_integral_all (nodes : List Rat) (r : Seg) (hr : 2 ≤ r.length) (prev : Rat) (a b : Nat) :
+    jordanExactVertical (splitMany r prev nodes) a b = exactVertical r a b := by
+  induction nodes generalizing r prev with
+  | nil => simp [splitMany, jordanExactVertical]
+  | cons n rest ih =>
+    have h2 := (splitAt_lengths r ((n - prev) / (1 - prev))).2
+    simp only [splitMany, jordanExactVertical, List.map_cons, List.sum_cons]
+    have := ih (splitAt r ((n - prev) / (1 - prev))).2 (by omega) n
+    simp only [jordanExactVertical] at this
+    rw [this]
+    exact exactVertical_split r hr _ a b
+
+/-- in particular the signed area ∫ x dy and every moment contribution of a curved piece survive any split exactly -/
+theorem split_preserves_area_all (s : Seg) (hs : 2 ≤ s.length) (nodes : List Rat) :
+    jordanExactVertical (splitMany s 0 nodes) 1 0 = exactVertical s 1 0 := splitMany_integral_all nodes s hs 0 1 0
 
 /-! non-vacuity: a cubic cut at 1/4 and 2/3 — three pieces, the middle one is the curve on [1/4, 2/3] -/
 example : intervals 0 [1/4, 2/3] = [(0, 1/4), (1/4, 2/3), (2/3, 1)] := by decide +kernel
